@@ -14,7 +14,7 @@
 EXTENDS Integers, Sequences, TLC, Json, IOUtils
 
 Parsers   == {"parse_typed", "parse_auto", "plugin_parse", "plugin_validate", "field_parse", "header_parse",
-              "extract_block", "tokenise", "parse_with_errors", "legacy_extract", "extract_block4"}
+              "extract_block", "tokenise", "parse_with_errors", "legacy_extract", "extract_block4", "util_parse"}
 OnMessage == {"serialise", "validate_full", "validate_stop", "validate_message", "to_json", "field_serialise", "header_display"}
 Always    == {"tag_util", "scale"}   \* tag normalisation (total on any string); "scale" = one size-ladder measurement
 OnJson    == {"from_json", "publish"}
